@@ -40,7 +40,7 @@ def jobs(tier):
                 p = "w%d" % (i + 1)
                 script.append({"op": "start", "p": p, "cold": True, "threads": w["threads"]})
                 if w["warm"] != "none":
-                    script.append({"op": "other", "p": p, "k": w["warm"]})
+                    script.append({"op": "other", "p": p, "k": w["warm"], "fam": fam})
                 for mi in w["meters"]:
                     b = METERS[mi]
                     slot = "s%d" % mi
